@@ -28,6 +28,7 @@ import (
 type C11Op struct {
 	Kind      string `json:"kind"` // query | validate | fmtschema
 	Doc       string `json:"doc,omitempty"`
+	DocName   string `json:"doc_name,omitempty"` // validate: name of the source the document is parsed from
 	Rules     string `json:"rules,omitempty"` // default | nosuggest | subset
 	RulesSeed uint64 `json:"rules_seed,omitempty"`
 	VarsSeed  uint64 `json:"vars_seed,omitempty"`
@@ -241,7 +242,7 @@ func execOp(c *opCtx, op *C11Op) (result string) {
 		if op.Kind == "query" {
 			doc, errs = gqlparser.LoadQuery(c.schema, op.Doc)
 		} else {
-			d, err := parser.ParseQuery(&ast.Source{Input: op.Doc})
+			d, err := parser.ParseQuery(&ast.Source{Name: op.DocName, Input: op.Doc})
 			if err != nil {
 				b.WriteString("parse: " + gen.RenderError(err))
 				return b.String()
@@ -993,6 +994,9 @@ func genRun(seed uint64, source string) *C11Run {
 				op.Kind = "validate"
 				op.Rules = []string{"default", "default", "nosuggest", "subset"}[r.Intn(4)]
 				op.RulesSeed = r.U64()
+				if r.Chance(1, 3) {
+					op.DocName = fmt.Sprintf("request-%d-%d.graphql", t, k)
+				}
 			case 2:
 				op.Kind = "fmtschema"
 			}
